@@ -174,6 +174,8 @@ def make_grader(sx, facts_obj=None, extra=None):
     def atom_grade(a):
         if a in extra:
             return extra[a]
+        if a.startswith(("const:core::f64::", "const:std::f64::", "const:core::f32::")):
+            return POLY      # EPSILON, MIN_POSITIVE, ...: literal constants (grade-polymorphic floors)
         if a.startswith(("it#", "unk#", "elem#")) or a.startswith("proj[it#") or "proj[it#" in a[:40]:
             return UNKNOWN
         if a.startswith("len(") or a.startswith("len["):
@@ -225,6 +227,46 @@ def make_grader(sx, facts_obj=None, extra=None):
             return (Fraction(0), Fraction(0))
         return UNKNOWN
     return Grader(atom_grade, call_grade)
+
+
+def r_grade_norm_helpers(rep, f):
+    """error-norm helpers called by the solvers (BDF's weighted_rms_scaled): the result is a per-component RMS norm -
+    degree 0 in the state scale and in the number of copies, and every sum over components adds dimensionless terms
+    (each component is divided by its own scale before the reduction)"""
+    helpers = []
+    for mod, ty in CONTROLLED:
+        b = f.body(solve_fn(mod, ty))
+        for c in tast.find(b["body"], lambda z: z.get("k") == "Call" and (z.get("def") or "").startswith("methods::") and (z.get("ty") in ("f64",))
+                           and len(z.get("args", [])) == 2 and all("[f64]" in (a_.get("ty") or "") or "Vec<f64>" in (a_.get("ty") or "") for a_ in z["args"])):
+            if c["def"] in f.bodies and c["def"] not in helpers:
+                helpers.append(c["def"])
+    for fn in helpers:
+        b = f.bodies[fn]
+        key = "R-GRADE:%s:norm" % fn
+        rep.fn(fn)
+        sx = SymExec(f, fn, Hooks())
+        sx.bind_params()
+        ret = sx.eval(b["body"])
+        ps = [p_ for p_ in b["params"] if p_.get("k") == "PBind"]
+        if len(ps) != 2 or not isinstance(ret, Poly):
+            rep.inconc("R-GRADE", key, "helper shape not understood")
+            continue
+        if sx.imprecise:
+            rep.inconc("R-GRADE", key, "the helper contains a construct the interpreter cannot follow (%s)" % sx.imprecise[0][0])
+            continue
+        extra = {}
+        for p_ in ps:
+            extra["%s@0" % p_["name"]] = (Fraction(0), Fraction(1))
+        g = make_grader(sx, extra=extra)
+        g.strict_sum = True
+        gr = g.poly(ret)
+        if gr == (0, 0):
+            rep.ok("R-GRADE", key, "%s is a per-component RMS norm: degree 0 in scale and copies, sums of dimensionless terms only" % fn.split("::")[-1])
+        elif gr == UNKNOWN:
+            rep.inconc("R-GRADE", key, "grade of %s's result not determined (%s)" % (fn.split("::")[-1], g.unknown_atoms[:2]))
+        else:
+            why = g.issues[-1][1] if g.issues else grade.fmt(gr)
+            rep.violation("R-GRADE", key, "%s is not a per-component RMS norm: %s" % (fn.split("::")[-1], why[:400]), b.get("sp"))
 
 
 def r_grade_solvers(rep, f):
@@ -299,6 +341,8 @@ def r_grade_solvers(rep, f):
         op, xs = DEFS[cond.single_atom()]
         E = xs[0] if not (isinstance(xs[0], Poly) and xs[0].is_const()) else xs[1]
         g.issues.clear()
+        g.strict_sum = True      # an error norm divides each component by its own scale BEFORE summing
+        g.memo.clear()
         ge = g.poly(E)
         if ge == (0, 0):
             rep.ok("R-GRADE", key, "the normalised error is homogeneous of degree 0 in the state scale and in the number of copies (RMS norm)")
